@@ -77,6 +77,26 @@ ASSUMPTIONS = [
     "pytd_sig.params both kinds (Signature.from_pytd); CPython's co_argcount "
     "excludes keyword-only parameters",
 ]
+# rules/c13_inherited_slots.py (R13.21)
+EXPLANATION += (
+    "  R13.21 (rules/c13_inherited_slots.py) constructor slots are inherited: "
+    "special_builtins.Object._has_own(node, cls, method) - which decides "
+    "whether object.__new__/__init__ tolerate the constructor's arguments - "
+    "must compute its verdict from a resolution of `method` along cls's MRO "
+    "(attribute_handler.get_attribute & co. called with cls and method, also "
+    "through locals) compared (!=) with object's own self.members[method]; a "
+    "verdict or early exit decided by cls's OWN member table (`method in "
+    "cls`, cls.members, cls.get_own_attributes()) is a violation (a subclass "
+    "inheriting __new__(cls, x) gets a false wrong-arg-count), anything else "
+    "an analysis error; and Object.get_special_attribute pairs the slots "
+    "cross-wise (looking up __new__ asks about __init__ and hands out "
+    "__new__extra_args, and vice versa), as object_new/object_init do.  "
+    "Blind spot: what get_attribute itself returns for metaclass-defined or "
+    "overlay-provided __new__/__init__ is not decided.")
+ASSUMPTIONS += [
+    "R13.21: CPython's object_new/object_init (typeobject.c) accept excess "
+    "arguments iff the other slot is overridden anywhere in the type's MRO",
+]
 
 FB = "pytype/abstract/_function_base.py"
 PF = "pytype/abstract/_pytd_function.py"
